@@ -51,7 +51,15 @@ def space(tier):
     quick = tier == "quick"
     cap = 30_000 if quick else 600_000
     units = []
+    import aws_durable_execution_sdk_python.concurrency.executor as _exm
+    import aws_durable_execution_sdk_python.state as _stm
+    lf = [_stm.__file__, _exm.__file__]
+    line_names = ("par[first:in-fn]", "par[first:between]", "par[first:new-op]", "par[first:new-child]",
+                  "par[first:two-steps-fast]", "map[tol0:two-steps-fast]", "par[tol0:new-op]", "par[min1:between]")
     for p in programs(tier):
+        if p["name"] in line_names or not quick and p["name"].startswith("par["):
+            # one preemption at any line of state.py / executor.py (check-then-act windows outside locks)
+            units.append(({"program": p, "cfg": {"env_kinds": [], "line_files": lf}}, {"thread": 1, "total": 1}, cap))
         units.append(({"program": p, "cfg": {"env_kinds": [], "timer_choices": True}},
                       {"thread": 1, "timer": 1, "total": 1} if quick else {"thread": 2, "timer": 1, "total": 2}, cap))
         for pol in ("low", "high"):
@@ -71,4 +79,5 @@ simcheck.install(globals(), "C10", [monitors.judge_c10], space,
                  "(both semantics) / child context / map / wait / callback, inside a nested child, racing) for parallel at "
                  "top level and inside a child context, plus nesting 2 (the completing context is an inner parallel "
                  "inside a branch); every single crash point (replays in which the completing context and its branches are "
-                 "already partly recorded); all schedules with <=1 (quick) / <=2 (thorough) deviations, policies rtb/low/high")
+                 "already partly recorded); one preemption at any line of state.py/executor.py on 8 (quick) / all parallel (thorough) "
+                 "programs; all schedules with <=1 (quick) / <=2 (thorough) deviations, policies rtb/low/high")
